@@ -910,6 +910,13 @@ assumed("pd.index_diff", "index[1:] - index[:-1] of a sorted unique DatetimeInde
 class RSeries:
     pandas_kind = "Series"
 
+    def sym_setattr(self, interp, name, value, node):
+        if name == "index" and isinstance(value, RIndex) and value.frame.root == self.frame.root and \
+                _valid(to_z3(value.frame.member()) == to_z3(self.frame.member())):
+            # series.index = <a copy of its own index>: the same labels, row by row
+            return
+        raise Unsupported(f"attribute store Series.{name} (row-wise model)", node)
+
     def __init__(self, frame, cell, name=None):
         self.frame = frame
         self.cell = cell
